@@ -188,6 +188,27 @@ Definition int64ToBuf (i : N) (byteCount : nat) : list N :=
   let b := be_bytes 8 i [] in repeat 0 (byteCount - length b) ++ b.
 Definition be_value (l : list N) : N := fold_left (fun a d => 256 * a + d) l 0.
 
+(* write.go writeXRefStream, column widths /W [i1 i2 i3]:
+     i1 := 1; i3 := 2
+     i2Base := int64( *ctx.Size ); if offset > i2Base { i2Base = offset }      (offset = position of the xref stream)
+     i2 := func(i int64) (byteCount int) { for i > 0 { i >>= 8; byteCount++ }; return }(i2Base)
+   Column 2 carries byte offsets (type 1), next-free object numbers (type 0) and object stream numbers
+   (type 2), hence the maximum of /Size and the largest offset. *)
+Fixpoint byte_count (fuel : nat) (i : N) : nat :=
+  match fuel with
+  | O => O
+  | S f => if i =? 0 then O else S (byte_count f (i / 256))
+  end.
+Definition w2_width (size offset : N) : nat := byte_count 8 (if size <? offset then offset else size).
+
+(* one row of the cross-reference stream: type, field 2, field 3 *)
+Record xrow := mk_xrow { x_typ : N; x_a : N; x_b : N }.
+(* createXRefStream: buf = append(buf, s1...), s2, s3 with s_k = int64ToBuf(value, i_k) *)
+Definition row_bytes (w2 : nat) (r : xrow) : list N :=
+  int64ToBuf (x_typ r) 1 ++ int64ToBuf (x_a r) w2 ++ int64ToBuf (x_b r) 2.
+Definition xref_stream_content (size offset : N) (rows : list xrow) : list N :=
+  concat (map (row_bytes (w2_width size offset)) rows).
+
 (* model/xreftable.go FreeObject: generation++, free, offset := head.offset, head.offset := objNr.
    On the list of free entries (head = object 0 first). *)
 Definition free_object (frees : list ent) (nr gen : N) : list ent :=
@@ -404,6 +425,50 @@ Definition header_ok (f : list N) : bool :=
    (type 0 and type 1 rows; the harness resolves type 2 rows itself) *)
 Definition check_rows (f : list N) (size maxc : N) (ents : list ent) : bool :=
   table_ok size maxc ents && forallb (entry_locates f) ents.
+
+(* ---- cross-reference STREAM rows (the harness inflates the stream and hands over the decoded bytes,
+   /W and /Index): exactly k bytes per field, exactly cnt rows per /Index pair, nothing left over *)
+Fixpoint take_bytes (k : nat) (l : list N) : option (list N * list N) :=
+  match k with
+  | O => Some ([], l)
+  | S k' => match l with
+            | b :: t => if b <? 256 then bind (take_bytes k' t) (fun '(d, r) => Some (b :: d, r)) else None
+            | [] => None
+            end
+  end.
+Definition decode_row (w0 w1 w2 : nat) (l : list N) : option (xrow * list N) :=
+  bind (take_bytes w0 l) (fun '(a, r1) =>
+  bind (take_bytes w1 r1) (fun '(b, r2) =>
+  bind (take_bytes w2 r2) (fun '(c, r3) =>
+  Some (mk_xrow (match w0 with O => 1 | _ => be_value a end) (be_value b) (be_value c), r3)))).
+Fixpoint decode_rows (fuel : list N) (w0 w1 w2 : nat) (cnt nr : N) (l : list N) : option (list (N * xrow) * list N) :=
+  if cnt =? 0 then Some ([], l) else
+  match fuel with
+  | [] => None
+  | _ :: fuel' =>
+      bind (decode_row w0 w1 w2 l) (fun '(r, rest) =>
+      bind (decode_rows fuel' w0 w1 w2 (N.pred cnt) (N.succ nr) rest) (fun '(rs, rest') =>
+      Some ((nr, r) :: rs, rest')))
+  end.
+Fixpoint decode_index (w0 w1 w2 : nat) (index : list (N * N)) (l : list N) : option (list (N * xrow)) :=
+  match index with
+  | [] => match l with [] => Some [] | _ => None end          (* len(decoded) = rows x (W0+W1+W2) exactly *)
+  | (start, cnt) :: ix =>
+      bind (decode_rows l w0 w1 w2 cnt start l) (fun '(rs, rest) =>
+      bind (decode_index w0 w1 w2 ix rest) (fun rs' => Some (rs ++ rs')))
+  end.
+Definition rows_ents (rows : list (N * xrow)) : list ent :=
+  flat_map (fun '(nr, r) => if x_typ r =? 2 then [] else [mk_ent nr (x_a r) (x_b r) (x_typ r =? 0)]) rows.
+Definition rows_maxc (rows : list (N * xrow)) : N :=
+  fold_left (fun m '(nr, r) => if x_typ r =? 2 then N.max m nr else m) rows 0.
+(* a field is w bytes wide; a zero-width row or a zero-width column 2/3 cannot carry the entries *)
+Definition check_xref_stream (f : list N) (size : N) (w0 w1 w2 : nat) (index : list (N * N)) (data : list N) : bool :=
+  match decode_index w0 w1 w2 index data with
+  | None => false
+  | Some rows =>
+      negb (Nat.eqb (w0 + w1 + w2) 0) && forallb (fun '(_, r) => x_typ r <=? 2) rows &&
+      check_rows f size (rows_maxc rows) (rows_ents rows)
+  end.
 
 Definition check_file (f : list N) : bool :=
   header_ok f &&
